@@ -420,22 +420,33 @@ func (p *Proxy) handleConnectRequest(ctx *Context, req *http.Request, session *S
 		log.Errorf("martian: got error while flushing response back to client: %v", err)
 	}
 
-	cbw := bufio.NewWriter(cconn)
-	cbr := bufio.NewReader(cconn)
-	defer cbw.Flush()
+	// closeWrite tells the peer behind c that no more bytes will follow, so that
+	// end-of-stream on one side of the tunnel reaches the other side.
+	closeWrite := func(c net.Conn) {
+		if cw, ok := c.(interface{ CloseWrite() error }); ok {
+			cw.CloseWrite()
+		}
+	}
 
-	copySync := func(w io.Writer, r io.Reader, donec chan<- bool) {
+	copySync := func(w io.Writer, r io.Reader, dst net.Conn, donec chan<- bool) {
 		if _, err := io.Copy(w, r); err != nil && err != io.EOF {
 			log.Errorf("martian: failed to copy CONNECT tunnel: %v", err)
 		}
+		if w == io.Writer(brw) {
+			brw.Flush()
+		}
+		closeWrite(dst)
 
 		log.Debugf("martian: CONNECT tunnel finished copying")
 		donec <- true
 	}
 
 	donec := make(chan bool, 2)
-	go copySync(cbw, brw, donec)
-	go copySync(brw, cbr, donec)
+	// Copy from brw so that bytes that arrived together with the CONNECT request
+	// are forwarded first, and write to cconn directly so that nothing is held
+	// back in a write buffer.
+	go copySync(cconn, brw, cconn, donec)
+	go copySync(brw, cconn, conn, donec)
 
 	log.Debugf("martian: established CONNECT tunnel, proxying traffic")
 	<-donec
